@@ -56,6 +56,7 @@ def c04(tier):
     rng = random.Random(seed())
     cases = grams.curated_conflict() + grams.curated("lang")
     cases += grams.shift_family(3 if quick else 4)
+    cases += grams.self_nesting() + grams.rename_variants(grams.curated("lang") + grams.self_nesting() + grams.curated_conflict())
     cases += grams.chain_family() + grams.order_variants(grams.curated_conflict() + grams.curated("lang"), rng, reverse=True, shuffles=0 if quick else 2)
     cases += grams.random_grammars(seed() + 4, 80 if quick else 500, prefix="rnd4", sugar=0.15, maxalts=3)
     cases += grams.random_grammars(seed() + 44, 60 if quick else 400, prefix="rnd4p", sugar=0.1, prec=True)
